@@ -231,7 +231,7 @@ impl Pay {
     }
 }
 pub const TAGGED: [Pay; 6] = [Pay::P1, Pay::P4, Pay::P8, Pay::P16, Pay::P40, Pay::PR];
-pub const ALL_PAY: [Pay; 13] = [
+pub const ALL_PAY: [Pay; 15] = [
     Pay::Z0,
     Pay::ZA,
     Pay::P1,
@@ -245,6 +245,8 @@ pub const ALL_PAY: [Pay; 13] = [
     Pay::U32,
     Pay::U64,
     Pay::U128,
+    Pay::PBIG,
+    Pay::PA64,
 ];
 
 /// Generation profile of one property check.
